@@ -590,3 +590,172 @@ Section OneStep.
     unfold cproj. apply forallb2_map. intros id _. apply ctrans_trans_ok. exact (sf_ct _ _ _ _ F id).
   Qed.
 End OneStep.
+
+(** *** list positions *)
+Lemma nthZ_Some {A} i (l : list A) x : nthZ i l = Some x -> 0 <= i /\ nth_error l (Z.to_nat i) = Some x.
+Proof. unfold nthZ. destruct (i <? 0) eqn:E; [discriminate|]. apply Z.ltb_ge in E. auto. Qed.
+
+Lemma nthZ_map {A B} (f : A -> B) i l : nthZ i (map f l) = option_map f (nthZ i l).
+Proof. unfold nthZ. destruct (i <? 0); [reflexivity|]. apply nth_error_map. Qed.
+
+Lemma replace_at_spec {A B} `{EqDec A} (g : A -> B) (a : B) : forall (l : list A) i x, NoDup l -> nth_error l i = Some x ->
+  map (fun y => if eq_dec y x then a else g y) l = replace_at i a (map g l).
+Proof.
+  induction l as [|y l IH]; intros [|i] x Hnd Hn; simpl in *; try discriminate.
+  - inversion Hn; subst. destruct (eq_dec x x); [|congruence]. f_equal. inversion Hnd as [|? ? Hni _]; subst.
+    apply map_ext_in. intros z Hz. destruct (eq_dec z x) as [->|]; [contradiction|reflexivity].
+  - inversion Hnd as [|? ? Hni Hnd']; subst. rewrite (IH i x Hnd' Hn).
+    destruct (eq_dec y x) as [->|]; [|reflexivity]. exfalso. apply Hni. exact (nth_error_In _ _ Hn).
+Qed.
+
+Lemma cproj_set k s s' idx id v : NoDup (k_ids k) -> nthZ idx (k_ids k) = Some id ->
+  st_contracts s' = set id v (st_contracts s) ->
+  cproj k s' = replace_at (Z.to_nat idx) (Some (proj_contract v)) (cproj k s).
+Proof.
+  intros Hnd Hn Hc. destruct (nthZ_Some _ _ _ Hn) as [_ Hn'].
+  unfold cproj. rewrite <- (replace_at_spec _ _ _ _ _ Hnd Hn'). apply map_ext. intros y.
+  rewrite Hc, get_set. destruct (eq_dec y id); reflexivity.
+Qed.
+
+Lemma same_view_Vw k nd s c1 c2 po o : Vw k nd s c1 po -> Vw k nd s c2 o -> same_view po o = true.
+Proof.
+  intros V V'. unfold same_view.
+  rewrite (vw_contracts _ _ _ _ _ V), (vw_contracts _ _ _ _ _ V'), (vw_queue _ _ _ _ _ V), (vw_queue _ _ _ _ _ V'),
+          (vw_bals _ _ _ _ _ V), (vw_bals _ _ _ _ _ V'), (vw_sups _ _ _ _ _ V), (vw_sups _ _ _ _ _ V'),
+          (vw_bsups _ _ _ _ _ V), (vw_bsups _ _ _ _ _ V'), (vw_prev _ _ _ _ _ V), (vw_prev _ _ _ _ _ V').
+  rewrite !eqb_refl, Z.eqb_refl. reflexivity.
+Qed.
+
+Lemma dummy_absent s : Inv s -> get (((-1, -1), -1, -1, []) : cid) (st_contracts s) = None.
+Proof.
+  intros I. destruct (get _ (st_contracts s)) as [c|] eqn:Hg; [|reflexivity]. exfalso.
+  pose proof (inv_wfc _ I _ _ (get_In _ _ _ Hg)) as W. destruct (id_fields _ _ _ W) as (_ & Hs & _).
+  destruct W as (_ & _ & _ & _ & _ & _ & (Hs0 & _) & _). cbn in Hs. lia.
+Qed.
+
+Lemma adv_due_live k nd s dts po o code0 : Inv s -> Strict s -> Vw k nd s code0 po -> Vw k nd (step s (Adv dts)) 0 o ->
+  forallb2 (fun p c : option cobs =>
+              match p with
+              | Some p' =>
+                  if (c_state_of p' =? 0) && (o_height po <? c_exp_of p') && (c_exp_of p' <=? o_height o) then
+                    match c with
+                    | Some c' => (c_state_of c' =? 2) && (c_closed_of c' =? c_exp_of p') && eqb (static_of p') (static_of c')
+                    | None => false
+                    end
+                  else eqb p c
+              | None => eqb p c
+              end) (o_contracts po) (o_contracts o)
+  && forallb (fun c : option cobs => match c with Some c' => negb (c_state_of c' =? 0) || (o_height o <? c_exp_of c') | None => true end)
+             (o_contracts o)
+  && (o_code o =? 0) = true.
+Proof.
+  intros I S V V'. unfold step in V'. cbn [exec] in V'.
+  destruct (adv_exact dts s I S) as (Hh & Hc). destruct (adv_spec dts s I S) as (I' & S' & _ & _).
+  set (s' := fold_left begin_block dts s) in *.
+  rewrite (vw_code _ _ _ _ _ V'), (vw_contracts _ _ _ _ _ V), (vw_contracts _ _ _ _ _ V'), (vw_height _ _ _ _ _ V), (vw_height _ _ _ _ _ V').
+  rewrite Z.eqb_refl, andb_true_r. apply andb_true_iff. split.
+  - unfold cproj. apply forallb2_map. intros id _. rewrite Hc.
+    destruct (get id (st_contracts s)) as [c|] eqn:Hg; simpl; [|reflexivity].
+    unfold adv_effect, openb, proj_contract, c_state_of, c_exp_of. cbn.
+    destruct (c_state c) eqn:Hst; cbn; try (rewrite ?Hst; cbn; apply eqb_refl).
+    pose proof (S _ _ Hg Hst) as Hlt. replace (st_height s <? c_exp c) with true by (symmetry; apply Z.ltb_lt; exact Hlt). cbn.
+    destruct (c_exp c <=? st_height s'); cbn.
+    + unfold c_closed_of, static_of, c_exp_of, c_ts_of, c_tr_of, c_dir_of. cbn. rewrite Z.eqb_refl, eqb_refl. reflexivity.
+    + rewrite Hst. apply eqb_refl.
+  - unfold cproj. apply forallb_forall. intros x Hx. apply in_map_iff in Hx. destruct Hx as (id & <- & _).
+    destruct (get id (st_contracts s')) as [c|] eqn:Hg; simpl; [|reflexivity].
+    unfold proj_contract, c_state_of, c_exp_of. destruct (c_state c) eqn:Hst; cbn; try reflexivity.
+    apply Z.ltb_lt. exact (S' _ _ Hg Hst).
+Qed.
+
+(** *** the C03 monitor on one model step *)
+Lemma p03_step k nd s c po o code0 : Inv s -> Strict s -> wf_op (to_op k c) -> op_wf k c = true ->
+  Tbl k (step s (to_op k c)) -> Vw k nd s code0 po ->
+  Vw k nd (step s (to_op k c)) (if step_ok s (to_op k c) then 0 else 1) o ->
+  p03 k po c o = 0.
+Proof.
+  intros I S W OW T V V'.
+  destruct (step_facts k s (to_op k c) I S W T) as (evs & F).
+  pose proof (sf_moves k nd s _ evs F po o _ _ V V') as Hmv.
+  pose proof (sf_sm k nd s _ evs F po o _ _ V V') as Hsm.
+  assert (Hrej : step_ok s (to_op k c) = false -> same_view po o = true).
+  { intros Hr. rewrite (rejected_changes_nothing _ _ Hr) in V'. exact (same_view_Vw k nd s _ _ po o V V'). }
+  unfold p03. rewrite Hmv, Hsm.
+  destruct c as [idx m|who idx secret|dts|n dt].
+  - (* create *)
+    rewrite (vw_code _ _ _ _ _ V'). cbn [to_op] in *. destruct (step_ok s (Create m)) eqn:Hok; cbn [Z.eqb negb].
+    2:{ rewrite (Hrej eq_refl). reflexivity. }
+    unfold op_wf in OW. apply (proj1 (eqb_true_iff _ _)) in OW.
+    unfold step_ok in Hok. cbn [exec] in Hok. unfold step in *. cbn [exec] in *.
+    destruct (create s m) as [s'|] eqn:Hc; [|discriminate].
+    destruct (create_open_rel s m s' I W Hc) as (dr & R).
+    pose proof (inv_wfc _ (sf_inv' _ _ _ _ F) _ _ (get_In _ _ _ (eq_trans (f_equal (get (id_of m)) (or_contracts _ _ _ _ R)) (get_set_same _ _ _)))) as Wn.
+    rewrite (vw_contracts _ _ _ _ _ V), (vw_contracts _ _ _ _ _ V'), (vw_height _ _ _ _ _ V).
+    rewrite (cproj_set k s s' idx (id_of m) _ (tb_nodup _ _ T) OW (or_contracts _ _ _ _ R)).
+    destruct (nthZ_Some _ _ _ OW) as [Hi Hn].
+    assert (Hlen : (Z.to_nat idx < length (cproj k s))%nat)
+      by (unfold cproj; rewrite map_length; apply nth_error_Some; congruence).
+    assert (Hp : nthZ idx (cproj k s) = Some None).
+    { unfold cproj. rewrite nthZ_map, OW. simpl. rewrite (or_fresh _ _ _ _ R). reflexivity. }
+    rewrite Hp.
+    assert (Hq : nthZ idx (replace_at (Z.to_nat idx) (Some (proj_contract (new_contract s m dr))) (cproj k s))
+                 = Some (Some (proj_contract (new_contract s m dr)))).
+    { unfold nthZ. replace (idx <? 0) with false by (symmetry; apply Z.ltb_ge; exact Hi).
+      clear - Hlen. revert Hlen. generalize (Z.to_nat idx). generalize (cproj k s).
+      induction l as [|y l IH]; intros [|i] H; simpl in *; try lia; [reflexivity|apply IH; lia]. }
+    rewrite Hq. rewrite eqb_refl.
+    destruct Wn as (_ & _ & _ & _ & _ & _ & _ & Hkind).
+    unfold new_contract, proj_contract, c_state_of, c_closed_of, c_exp_of, c_ts_of, c_tr_of, c_dir_of in *. cbn in *.
+    rewrite !Z.eqb_refl. destruct (m_transfer m); cbn.
+    + destruct Hkind as [_ Hd]. destruct dr; [congruence|reflexivity|reflexivity].
+    + rewrite Hkind. reflexivity.
+  - (* claim *)
+    rewrite (vw_code _ _ _ _ _ V'). cbn [to_op] in *. set (id := id_at k idx) in *.
+    assert (Hexp : (match nthZ idx (o_contracts po) with
+                    | Some (Some p') => (c_state_of p' =? 0) && eqb (secret, c_ts_of p') (id_hl id) && (0 <=? who)
+                    | _ => false end) = step_ok s (Claim who id secret)).
+    { rewrite (vw_contracts _ _ _ _ _ V). unfold cproj. rewrite nthZ_map.
+      apply eq_true_iff_eq. rewrite (claim_iff_preimage_lemma s who id secret I).
+      unfold id, id_at. destruct (nthZ idx (k_ids k)) as [id0|] eqn:Hn; simpl.
+      - destruct (get id0 (st_contracts s)) as [c0|] eqn:Hg; simpl.
+        + pose proof (inv_wfc _ I _ _ (get_In _ _ _ Hg)) as W0. destruct (id_fields _ _ _ W0) as (Hhl & _).
+          unfold proj_contract, c_state_of, c_ts_of, secret_ok, addr_ok. rewrite Hhl. rewrite !andb_true_iff. split.
+          * intros [[H1 H2] H3]. split; [exact H3|]. exists c0. split; [reflexivity|]. split; [|exact H2].
+            destruct (c_state c0); simpl in H1; [reflexivity|discriminate|discriminate].
+          * intros (H3 & c1 & E & Ho & H2). inversion E; subst c1. rewrite Ho. auto.
+        + split; [discriminate|]. intros (_ & c1 & E & _). discriminate.
+      - split; [discriminate|]. intros (_ & c1 & E & _). rewrite (dummy_absent s I) in E. discriminate. }
+    rewrite Hexp. destruct (step_ok s (Claim who id secret)) eqn:Hok; cbn [Z.eqb negb eqb].
+    2:{ rewrite eqb_refl. cbn. rewrite (Hrej eq_refl). reflexivity. }
+    rewrite eqb_refl. cbn [negb].
+    destruct (claim_effect_lemma s who id secret I S Hok) as (c0 & Hg & Ho & Hsec & Hlt & Hg' & _).
+    pose proof (claim_spec s who id secret I) as Hs. unfold step in *. cbn [exec] in *.
+    destruct (claim s who id secret) as [s'|] eqn:Hcl; [|unfold step_ok in Hok; cbn [exec] in Hok; rewrite Hcl in Hok; discriminate].
+    destruct Hs as (_ & c1 & Hg1 & _ & _ & R). rewrite Hg in Hg1. inversion Hg1; subst c1.
+    assert (Hn : nthZ idx (k_ids k) = Some id).
+    { unfold id, id_at in *. destruct (nthZ idx (k_ids k)) as [id0|] eqn:Hn; [reflexivity|].
+      rewrite (dummy_absent s I) in Hg. discriminate. }
+    rewrite (vw_contracts _ _ _ _ _ V), (vw_contracts _ _ _ _ _ V'), (vw_height _ _ _ _ _ V').
+    rewrite (cproj_set k s s' idx id _ (tb_nodup _ _ T) Hn (cr_contracts _ _ _ _ _ R)).
+    destruct (nthZ_Some _ _ _ Hn) as [Hi Hn'].
+    assert (Hlen : (Z.to_nat idx < length (cproj k s))%nat)
+      by (unfold cproj; rewrite map_length; apply nth_error_Some; congruence).
+    assert (Hp : nthZ idx (cproj k s) = Some (Some (proj_contract c0))).
+    { unfold cproj. rewrite nthZ_map, Hn. simpl. rewrite Hg. reflexivity. }
+    rewrite Hp.
+    assert (Hq : nthZ idx (replace_at (Z.to_nat idx) (Some (proj_contract (close c0 Completed (st_height s)))) (cproj k s))
+                 = Some (Some (proj_contract (close c0 Completed (st_height s))))).
+    { unfold nthZ. replace (idx <? 0) with false by (symmetry; apply Z.ltb_ge; exact Hi).
+      clear - Hlen. revert Hlen. generalize (Z.to_nat idx). generalize (cproj k s).
+      induction l as [|y l IH]; intros [|i] H; simpl in *; try lia; [reflexivity|apply IH; lia]. }
+    rewrite Hq, eqb_refl, (cr_height _ _ _ _ _ R).
+    unfold proj_contract, c_state_of, c_closed_of, static_of, c_exp_of, c_ts_of, c_tr_of, c_dir_of. cbn.
+    rewrite Z.eqb_refl, eqb_refl. reflexivity.
+  - (* block boundaries *)
+    cbv zeta. cbn [to_op step_ok exec] in V'.
+    match goal with |- first_nonzero [_; (if ?b then _ else _); _] = 0 => replace b with true; [reflexivity|symmetry] end.
+    exact (adv_due_live k nd s dts po o code0 I S V V').
+  - cbv zeta. cbn [to_op step_ok exec] in V'.
+    match goal with |- first_nonzero [_; (if ?b then _ else _); _] = 0 => replace b with true; [reflexivity|symmetry] end.
+    exact (adv_due_live k nd s (repeat dt (Z.to_nat n)) po o code0 I S V V').
+Qed.
